@@ -7,7 +7,9 @@ package document
 import (
 	"github.com/yorkie-team/yorkie/internal/zzvsym"
 	"github.com/yorkie-team/yorkie/pkg/document/change"
+	"github.com/yorkie-team/yorkie/pkg/document/json"
 	"github.com/yorkie-team/yorkie/pkg/document/operations"
+	"github.com/yorkie-team/yorkie/pkg/document/presence"
 )
 
 // vRestoresIdentity reports whether one of the changes carries a Set whose
@@ -180,4 +182,82 @@ func VerifR11UndoSync() {
 		vConverged("final", a, b)
 	}
 	zzvsym.Observe(a.Marshal())
+}
+
+// VerifR10UndoNonBMP: undo/redo of edits that remove characters outside the
+// Basic Multilingual Plane (one rune, two UTF-16 units). The reverse
+// operations carry restore spans measured in UTF-16 units; every change is
+// passed through the real wire converters to a peer.
+func VerifR10UndoNonBMP() {
+	a, b := vReplica("actA"), vReplica("actB")
+	s := vNewSrv()
+	kind := zzvsym.IntRange("container", 0, 1) // 0 text, 1 tree
+	err := a.Update(func(root *json.Object, p *presence.Presence) error {
+		if kind == 0 {
+			root.SetNewText("txt").Edit(0, 0, "a\U0001F600b")
+		} else {
+			root.SetNewTree("tree", json.TreeNode{Type: "r", Children: []json.TreeNode{
+				{Type: "p", Children: []json.TreeNode{{Type: "text", Value: "a\U0001F600b"}}},
+			}})
+		}
+		return nil
+	})
+	zzvsym.Assert(err == nil, "base-update-no-error")
+	zzvsym.Assert(a.ClearHistory() == nil, "clear-history-no-error")
+	s.sync(0, a)
+	s.sync(1, b)
+	content := func(d *Document) string {
+		if kind == 0 {
+			return d.Root().GetText("txt").String()
+		}
+		return d.Root().GetTree("tree").ToXML()
+	}
+	c0 := content(a)
+	// the edit: UTF-16 indices; the astral character occupies [1,3) (text) / [2,4) (tree)
+	off := kind // tree indices are shifted by the opening tag
+	from, to := 1+off, 3+off
+	switch zzvsym.IntRange("edit", 0, 2) {
+	case 1:
+		from, to = 0+off, 4+off // everything
+	case 2:
+		from, to = 0+off, 3+off // prefix including the astral character
+	}
+	replace := zzvsym.IntRange("replace", 0, 1) == 1
+	err = a.Update(func(root *json.Object, p *presence.Presence) error {
+		if kind == 0 {
+			if replace {
+				root.GetText("txt").Edit(from, to, "Z")
+			} else {
+				root.GetText("txt").Edit(from, to, "")
+			}
+		} else {
+			if replace {
+				root.GetTree("tree").Edit(from, to, &json.TreeNode{Type: "text", Value: "Z"}, 0)
+			} else {
+				root.GetTree("tree").Edit(from, to, nil, 0)
+			}
+		}
+		return nil
+	})
+	zzvsym.Assert(err == nil, "edit-no-error")
+	c1 := content(a)
+	s.sync(0, a)
+	s.sync(1, b)
+	zzvsym.Assert(content(b) == c1, "peer-sees-edit")
+	zzvsym.Assert(a.Undo() == nil, "undo-no-error")
+	zzvsym.Assert(content(a) == c0, "undo-restores-astral-content")
+	vCheckClone(a, "after-undo")
+	s.sync(0, a)
+	s.sync(1, b)
+	zzvsym.Assert(content(b) == c0, "peer-sees-undo")
+	if zzvsym.IntRange("redo", 0, 1) == 1 {
+		zzvsym.Assert(a.Redo() == nil, "redo-no-error")
+		zzvsym.Assert(content(a) == c1, "redo-restores-edit")
+		s.sync(0, a)
+		s.sync(1, b)
+		zzvsym.Assert(content(b) == c1, "peer-sees-redo")
+	}
+	zzvsym.Reach("walked")
+	vConverged("final", a, b)
+	zzvsym.Observe(content(a))
 }
